@@ -2,6 +2,7 @@ package main
 
 import (
 	"fmt"
+	"strings"
 	"go/token"
 )
 
@@ -97,6 +98,8 @@ func (e *Exec) realToInt(st *State, t *Term, w int, signed bool) *Term {
 	switch {
 	case t.Op == "to_real":
 		tr = t.Args[0] // already integral
+	case t.Op == "uf" && strings.HasPrefix(t.S, "f64_round_"):
+		tr = UF("f64_toint", IntSort, t)
 	case t.Op == "ite":
 		a := e.realToInt(st, t.Args[1], w, signed)
 		b := e.realToInt(st, t.Args[2], w, signed)
